@@ -324,8 +324,8 @@ private def exA : AEReq :=
   { leader := 12, leaderId := 2, term := 2, prevIdx := 1, prevTerm := 1, commit := 0,
     entries := [⟨2, 1, 0, 12, []⟩, ⟨3, 2, 0, 23, []⟩] }
 
-example : isSuccess (exec (aePlan ⟨false, false, 3, 4⟩ exD exV exA) none none).1.resp = true := by decide
-example : (applyAll exD (exec (aePlan ⟨false, false, 3, 4⟩ exD exV exA) none none).2).log =
+example : isSuccess (exec (aePlan ⟨false, false, 3, 4, false⟩ exD exV exA) none none).1.resp = true := by decide
+example : (applyAll exD (exec (aePlan ⟨false, false, 3, 4, false⟩ exD exV exA) none none).2).log =
     [⟨1, 1, 0, 11, []⟩, ⟨2, 1, 0, 12, []⟩, ⟨3, 2, 0, 23, []⟩] := by decide
 example : Sorted exLog ∧ Sorted exA.entries := by
   constructor <;> simp [Sorted, exLog, exA]
